@@ -38,7 +38,7 @@ func init() {
 		Rule:     "a case = capacity, initial rotation (counter warp) and fill, thread programs (Push/Pop/Len/IsEmpty/IsFull) + a schedule of atomic steps executed on the real ringz/sync.go under the deterministic scheduler; non-trivial = at least one context switch while the thread switched away from is inside a call; distinct by hash",
 		Classify: classify,
 		Facts:    facts,
-		Extras:   []core.Extra{raceExtra, timedExtra},
+		Extras:   []core.Extra{raceExtra, timedExtra, modelRaceExtra},
 		Parallel: false,
 		Assumptions: []string{
 			"sync/atomic operations are sequentially consistent and DRF-SC holds (Go memory model)",
